@@ -13,6 +13,7 @@ import (
 	"bytes"
 	crand "crypto/rand"
 	"fmt"
+	"math/big"
 	"testing"
 
 	pubsub "github.com/libp2p/go-libp2p-pubsub"
@@ -46,12 +47,47 @@ type c18Peer struct {
 	opKey    []byte // uncompressed operator public key; nil for non-operator keys
 }
 
+// c18Uncompressed is 0x04 || X (32 bytes) || Y (32 bytes), made independently of package operator.
+func c18Uncompressed(x, y *big.Int) []byte {
+	out := make([]byte, 65)
+	out[0] = 4
+	x.FillBytes(out[1:33])
+	y.FillBytes(out[33:65])
+	return out
+}
+
+// c18ShortKey returns the operator key with the smallest private scalar whose
+// public X (wantX) or Y coordinate fits into 31 bytes.
+func c18ShortKey(t *testing.T, wantX bool) *operator.PrivateKey {
+	limit := new(big.Int).Lsh(big.NewInt(1), 248)
+	for d := int64(1); d < 100000; d++ {
+		k := big.NewInt(d)
+		x, y := DefaultCurve.ScalarBaseMult(k.Bytes())
+		c := y
+		if wantX {
+			c = x
+		}
+		if c.Cmp(limit) < 0 {
+			return &operator.PrivateKey{PublicKey: operator.PublicKey{Curve: operator.Secp256k1, X: x, Y: y}, D: k}
+		}
+	}
+	t.Fatalf("no key with a short coordinate found")
+	return nil
+}
+
 func c18Peers(t *testing.T) map[string]c18Peer {
 	out := map[string]c18Peer{}
-	for _, name := range []string{"a", "b"} {
+	for _, name := range []string{"a", "b", "sx", "sy"} {
 		opPriv, opPub, err := operator.GenerateKeyPair(DefaultCurve)
 		if err != nil {
 			t.Fatal(err)
+		}
+		if name == "sx" || name == "sy" {
+			opPriv = c18ShortKey(t, name == "sx")
+			opPub = &opPriv.PublicKey
+			if short := map[string]*big.Int{"sx": opPub.X, "sy": opPub.Y}[name]; len(short.Bytes()) >= 32 {
+				t.Fatalf("fixture: coordinate of %s is not short", name)
+			}
 		}
 		npriv, _, err := operatorPrivateKeyToNetworkKeyPair(opPriv)
 		if err != nil {
@@ -65,7 +101,7 @@ func c18Peers(t *testing.T) map[string]c18Peer {
 		if err != nil {
 			t.Fatal(err)
 		}
-		out[name] = c18Peer{id: ident.id, identity: ib, opKey: operator.MarshalUncompressed(opPub)}
+		out[name] = c18Peer{id: ident.id, identity: ib, opKey: c18Uncompressed(opPub.X, opPub.Y)}
 	}
 	_, edPub, err := libp2pcrypto.GenerateEd25519Key(crand.Reader)
 	if err != nil {
@@ -193,7 +229,7 @@ func TestVerif_C18_Envelopes(t *testing.T) {
 						if m.TransportSenderID().String() != p.id.String() {
 							bad = fmt.Sprintf("sender id %s is not the author %s", m.TransportSenderID(), p.id)
 						} else if !bytes.Equal(m.SenderPublicKey(), p.opKey) {
-							bad = "sender public key is not the author's operator key"
+							bad = fmt.Sprintf("sender public key (%d bytes, %x) is not the author's operator key in its 65-byte uncompressed form (%x)", len(m.SenderPublicKey()), m.SenderPublicKey(), p.opKey)
 						} else if m.Type() != c18Type || m.Seqno() != uint64(e.Get("seq").Int()) {
 							bad = fmt.Sprintf("type %q / seqno %d differ from the envelope's", m.Type(), m.Seqno())
 						} else if pm, ok := m.Payload().(*c18Msg); !ok || !bytes.Equal(pm.data, payload) {
